@@ -18,6 +18,24 @@ pub struct JournalG {
 pub enum ApplyKind { Insert, Remove, RemoveWeak, Clear }
 pub struct ApplyG { pub kind: ApplyKind, pub key: Seq<u8>, pub value: Seq<u8>, pub seqno: u64 }
 pub struct TreeG { pub applied: Seq<ApplyG>, pub manual_persist: bool }
+pub struct TrackerG {
+    pub data: Map<u64, usize>,      // the DashMap instant -> open count
+    pub freed: u64,                 // lowest_freed_instant = the GC watermark handed to lsm-tree
+    pub freed_count: u64,
+    pub live: Map<u64, nat>,        // GHOST TRUTH: number of live SnapshotNonce values per instant (total map)
+    pub rlock: bool, pub wlock: bool,   // gc_lock held (shared / exclusive) by the thread under analysis
+}
+pub open spec fn tcount(t: TrackerG, i: u64) -> nat { if t.data.dom().contains(i) { t.data[i] as nat } else { 0 } }
+/// P-REG (C05): the table counts exactly the live views, and the watermark is below every live instant > 0
+/// (a view at instant 0 sees the empty database under any watermark) and below the visible seqno
+pub open spec fn tracker_inv(w: World) -> bool {
+    &&& (forall|i: u64| #![trigger tcount(w.tracker, i)] #![trigger w.tracker.live[i]] tcount(w.tracker, i) == w.tracker.live[i])
+    &&& (forall|i: u64| #![trigger w.tracker.live[i]] i > 0 && w.tracker.live[i] > 0 ==> w.tracker.freed < i)
+    &&& (w.visible > 0 ==> w.tracker.freed < w.visible) && (w.visible == 0 ==> w.tracker.freed == 0)
+    &&& (forall|i: u64| #![trigger w.tracker.live[i]] w.tracker.live[i] > 0 ==> i <= w.visible)
+    &&& (forall|i: u64| #[trigger] w.tracker.data.dom().contains(i) ==> w.tracker.data[i] < usize::MAX && i <= w.visible)
+    &&& !w.tracker.rlock && !w.tracker.wlock
+}
 pub struct World {
     pub journal: JournalG,
     pub seqno: u64,                 // next sequence number to hand out
@@ -28,6 +46,8 @@ pub struct World {
     pub deleted: Map<int, bool>,    // keyspace deleted flags by identity
     pub trees: Map<u64, TreeG>,     // by keyspace id
     pub db_poison: int,             // identity of the database's poison flag
+    pub tracker: TrackerG,          // snapshot tracker (its counter is `visible`)
+    pub recovering: bool,           // inside Database::recover/create_new: no other thread has a handle yet
     pub db_manual_persist: bool,    // Config::manual_journal_persist of the database (governs batches and transactions)
     pub poison_checked: bool,       // the database's poison flag was read (and was clear) inside the current critical section
 }
@@ -99,12 +119,13 @@ impl AtomicBool {
 }
 
 // ---------------------------------------------------------------- seqno counter (lsm_tree::SequenceNumberCounter)
-pub struct SequenceNumberCounter { pub dummy: u8 }
+pub struct SequenceNumberCounter { pub is_visible: Ghost<bool> }   // the seqno counter, or the visible-seqno counter held by the tracker
 impl SequenceNumberCounter {
     // P-LOCK: a data write draws its seqno inside the journal critical section, one per critical section
     #[verifier::external_body]
     pub fn next(&self, Tracked(w): Tracked<&mut World>) -> (r: u64)
-        requires old(w).journal.locked, // [C06:P-LOCK-seqno] [C01:P-LOCK-seqno] [C02:P-LOCK-seqno]
+        requires !self.is_visible@,
+                 old(w).journal.locked, // [C06:P-LOCK-seqno] [C01:P-LOCK-seqno] [C02:P-LOCK-seqno]
                  old(w).inflight is None, // [C06:one-seqno-per-batch] [C03:one-seqno-per-batch]
                  old(w).seqno < u64::MAX,
         ensures r == old(w).seqno,
@@ -112,7 +133,19 @@ impl SequenceNumberCounter {
     { unimplemented!() }
     #[verifier::external_body]
     pub fn get(&self, Tracked(w): Tracked<&mut World>) -> (r: u64)
-        ensures *final(w) == *old(w), r == old(w).seqno,
+        ensures *final(w) == *old(w), r == (if self.is_visible@ { old(w).visible } else { old(w).seqno }),
+    { unimplemented!() }
+    // P-VIS (C06): the visible seqno advances only inside the journal critical section (or during recovery, when no
+    // other thread has a handle), and only to publish the one seqno in flight
+    #[verifier::external_body]
+    pub fn fetch_max(&self, v: u64, Tracked(w): Tracked<&mut World>) -> (r: u64)
+        requires self.is_visible@ ==> (old(w).journal.locked || old(w).recovering), // [C06:P-VIS-advance-under-lock]
+                 self.is_visible@ && v > old(w).visible ==> old(w).pending.len() == 0 && (old(w).inflight is None || old(w).inflight == Some((v - 1) as u64)), // [C06:P-VIS-nothing-half-applied]
+                 !self.is_visible@ ==> old(w).recovering,
+        ensures r == (if self.is_visible@ { old(w).visible } else { old(w).seqno }),
+            self.is_visible@ ==> *final(w) == (World { visible: if v > old(w).visible { v } else { old(w).visible },
+                inflight: if v > 0 && old(w).inflight == Some((v - 1) as u64) { None } else { old(w).inflight }, ..*old(w) }),
+            !self.is_visible@ ==> *final(w) == (World { seqno: if v > old(w).seqno { v } else { old(w).seqno }, ..*old(w) }),
     { unimplemented!() }
 }
 
@@ -123,7 +156,7 @@ pub enum PersistMode { Buffer, SyncData, SyncAll }
 pub open spec fn journal_appended(o: World, n: World) -> bool {
     // only the journal changed, and only by appending
     n.seqno == o.seqno && n.visible == o.visible && n.inflight == o.inflight && n.poison == o.poison && n.deleted == o.deleted
-    && n.trees == o.trees && n.db_poison == o.db_poison && n.journal.locked == o.journal.locked && n.poison_checked == o.poison_checked && n.db_manual_persist == o.db_manual_persist
+    && n.trees == o.trees && n.db_poison == o.db_poison && n.journal.locked == o.journal.locked && n.poison_checked == o.poison_checked && n.db_manual_persist == o.db_manual_persist && n.tracker == o.tracker && n.recovering == o.recovering
     && n.journal.len >= o.journal.len && n.journal.os_len >= o.journal.os_len && n.journal.os_len <= n.journal.len
     && n.journal.synced_len == o.journal.synced_len
 }
@@ -173,7 +206,7 @@ impl Writer {
         requires old(w).journal.locked, // [C09:P-LOCK-persist] [C02:P-LOCK-journal]
         ensures
             final(w).seqno == old(w).seqno && final(w).visible == old(w).visible && final(w).inflight == old(w).inflight && final(w).poison == old(w).poison
-                && final(w).deleted == old(w).deleted && final(w).trees == old(w).trees && final(w).db_poison == old(w).db_poison && final(w).pending == old(w).pending && final(w).poison_checked == old(w).poison_checked && final(w).db_manual_persist == old(w).db_manual_persist,
+                && final(w).deleted == old(w).deleted && final(w).trees == old(w).trees && final(w).db_poison == old(w).db_poison && final(w).pending == old(w).pending && final(w).poison_checked == old(w).poison_checked && final(w).db_manual_persist == old(w).db_manual_persist && final(w).tracker == old(w).tracker && final(w).recovering == old(w).recovering,
             final(w).journal.locked, final(w).journal.recs == old(w).journal.recs, final(w).journal.len == old(w).journal.len,
             final(w).journal.os_len >= old(w).journal.os_len && final(w).journal.os_len <= final(w).journal.len,
             final(w).journal.synced_len >= old(w).journal.synced_len && final(w).journal.synced_len <= final(w).journal.os_len,
@@ -198,17 +231,20 @@ impl Mutex<Writer> {
                 r is Err ==> *final(w) == *old(w),
     { unimplemented!() }
 }
-pub trait ShimDrop { spec fn is_journal_guard() -> bool; }
-impl<'a> ShimDrop for MutexGuard<'a, Writer> { open spec fn is_journal_guard() -> bool { true } }
-/// rule R-DROP: `drop(x)` is visible as an event; dropping the journal guard releases the journal lock
+/// rule R-DROP / R-SCOPE: `drop(x)` of a guard is visible as an event
+pub trait ShimDrop { spec fn drop_pre(w: World) -> bool; spec fn drop_post(o: World, n: World) -> bool; }
+impl<'a> ShimDrop for MutexGuard<'a, Writer> {
+    // P-VIS / P-PUBLISH: the journal critical section ends only after everything journaled in it was applied and
+    // published (a failed operation may leave with a burned seqno, but then the instance must already be poisoned)
+    open spec fn drop_pre(w: World) -> bool {
+        w.journal.locked && ((w.inflight is None && w.pending.len() == 0) || (w.poison.dom().contains(w.db_poison) && w.poison[w.db_poison]))
+    }
+    open spec fn drop_post(o: World, n: World) -> bool { n == (World { journal: JournalG { locked: false, ..o.journal }, ..o }) }
+}
 #[verifier::external_body]
 pub fn drop<T: ShimDrop>(t: T, Tracked(w): Tracked<&mut World>)
-    requires T::is_journal_guard() ==> old(w).journal.locked,
-        // P-VIS / P-PUBLISH: the critical section ends only after everything journaled in it was applied and published
-        // (a failed operation may leave with a burned seqno, but then the instance must already be poisoned)
-        T::is_journal_guard() ==> (old(w).inflight is None && old(w).pending.len() == 0) || (old(w).poison.dom().contains(old(w).db_poison) && old(w).poison[old(w).db_poison]), // [C06:unlock-after-publish] [C02:unlock-after-apply] [C13:early-exit-only-when-poisoned]
-    ensures T::is_journal_guard() ==> *final(w) == (World { journal: JournalG { locked: false, ..old(w).journal }, ..*old(w) }),
-            !T::is_journal_guard() ==> *final(w) == *old(w),
+    requires T::drop_pre(*old(w)), // [C06:unlock-after-publish] [C02:unlock-after-apply] [C13:early-exit-only-when-poisoned]
+    ensures T::drop_post(*old(w), *final(w)),
 { unimplemented!() }
 
 // ---------------------------------------------------------------- lsm-tree (AnyTree): MVCC memtable writes
@@ -276,7 +312,7 @@ impl<T> HashSet<T> {
     pub fn insert(&mut self, t: T) -> (r: bool) { unimplemented!() }
 }
 pub struct KsReadGuard { pub dummy: u8 }
-impl ShimDrop for KsReadGuard { open spec fn is_journal_guard() -> bool { false } }
+impl ShimDrop for KsReadGuard { open spec fn drop_pre(w: World) -> bool { true } open spec fn drop_post(o: World, n: World) -> bool { n == o } }
 pub struct KsLockResult { pub dummy: u8 }
 impl KsLockResult {
     // a poisoned RwLock panics here in the real code (another thread panicked while holding it): not modelled
@@ -288,3 +324,122 @@ impl KeyspacesLock {
     #[verifier::external_body]
     pub fn read(&self) -> (r: KsLockResult) { unimplemented!() }
 }
+
+// ---------------------------------------------------------------- snapshot tracker internals (dashmap, RwLock<()>, AtomicU64)
+// DashMap<SeqNo, usize>: state in w.tracker.data. The hof_* methods are the targets of rules R-HOF / R-RETAIN
+// (entry/and_modify/or_insert, alter and retain unfolded by their documented definitions).
+// Lock discipline (C05): the table is mutated only with the gc lock held (shared for single entries, exclusive for retain).
+pub struct DashMap<K, V, S> { pub ph: core::marker::PhantomData<(K, V, S)> }
+impl<S> DashMap<u64, usize, S> {
+    #[verifier::external_body]
+    pub fn hof_get(&self, k: u64, Tracked(w): Tracked<&mut World>) -> (r: Option<usize>)
+        requires old(w).tracker.rlock || old(w).tracker.wlock, // [C05:table-under-gc-lock]
+        ensures *final(w) == *old(w), r == (if old(w).tracker.data.dom().contains(k) { Some(old(w).tracker.data[k]) } else { None::<usize> }),
+    { unimplemented!() }
+    #[verifier::external_body]
+    pub fn hof_set(&self, k: u64, v: usize, Tracked(w): Tracked<&mut World>)
+        requires old(w).tracker.rlock || old(w).tracker.wlock, // [C05:table-under-gc-lock]
+                 old(w).tracker.data.dom().contains(k),
+        ensures *final(w) == (World { tracker: TrackerG { data: old(w).tracker.data.insert(k, v), ..old(w).tracker }, ..*old(w) }),
+    { unimplemented!() }
+    #[verifier::external_body]
+    pub fn hof_insert(&self, k: u64, v: usize, Tracked(w): Tracked<&mut World>)
+        requires old(w).tracker.rlock || old(w).tracker.wlock, // [C05:table-under-gc-lock]
+                 !old(w).tracker.data.dom().contains(k),
+        ensures *final(w) == (World { tracker: TrackerG { data: old(w).tracker.data.insert(k, v), ..old(w).tracker }, ..*old(w) }),
+    { unimplemented!() }
+    // R-RETAIN: the keys, each exactly once, in an unspecified order
+    #[verifier::external_body]
+    pub fn hof_keys(&self, Tracked(w): Tracked<&mut World>) -> (ks: Vec<u64>)
+        requires old(w).tracker.wlock, // [C05:retain-under-exclusive-gc-lock]
+        ensures *final(w) == *old(w), ks@.no_duplicates(), forall|k: u64| ks@.contains(k) <==> old(w).tracker.data.dom().contains(k),
+    { unimplemented!() }
+    #[verifier::external_body]
+    pub fn hof_get_present(&self, k: u64, Tracked(w): Tracked<&mut World>) -> (v: usize)
+        requires old(w).tracker.wlock, old(w).tracker.data.dom().contains(k),
+        ensures *final(w) == *old(w), v == old(w).tracker.data[k],
+    { unimplemented!() }
+    #[verifier::external_body]
+    pub fn hof_retain_set(&self, k: u64, v: usize, keep: bool, Tracked(w): Tracked<&mut World>)
+        requires old(w).tracker.wlock, old(w).tracker.data.dom().contains(k),
+        ensures *final(w) == (World { tracker: TrackerG { data: if keep { old(w).tracker.data.insert(k, v) } else { old(w).tracker.data.remove(k) }, ..old(w).tracker }, ..*old(w) }),
+    { unimplemented!() }
+    #[verifier::external_body]
+    pub fn is_empty(&self, Tracked(w): Tracked<&mut World>) -> (r: bool)
+        ensures *final(w) == *old(w), r == (old(w).tracker.data.dom() =~= Set::<u64>::empty()),
+    { unimplemented!() }
+}
+pub struct RwLock<T> { pub ph: core::marker::PhantomData<T> }
+pub struct GcReadGuard { pub dummy: u8 }
+pub struct GcWriteGuard { pub dummy: u8 }
+pub struct LockResult<G> { pub g: G }
+impl<G> LockResult<G> {
+    // a poisoned lock panics here in the real code (another thread panicked while holding it): not modelled
+    pub fn expect(self, msg: &str) -> (r: G) ensures r == self.g { self.g }
+}
+/// INTERFERENCE at gc-lock acquisition (rely condition): while this thread waited for the lock, other threads may
+/// have published writes and run gc()/pullup(): the visible seqno and the watermark may have advanced, but only
+/// within the tracker's safety invariant (below the visible seqno and below every registered live view).
+/// A thread that reads the visible seqno BEFORE taking the lock and registers a view AFTER it therefore cannot
+/// prove that its instant is above the watermark -- which is exactly the race the lock exists to exclude.
+pub open spec fn gc_lock_interference(o: World, n: World) -> bool {
+    &&& n == (World { visible: n.visible, tracker: TrackerG { freed: n.tracker.freed, ..o.tracker }, ..o })
+    &&& n.visible >= o.visible && n.tracker.freed >= o.tracker.freed
+    &&& (o.journal.locked ==> n.visible == o.visible)       // P-VIS: nobody else publishes while we hold the journal lock
+    &&& (n.visible > 0 ==> n.tracker.freed < n.visible) && (n.visible == 0 ==> n.tracker.freed == 0)
+    &&& (forall|i: u64| #![trigger n.tracker.live[i]] i > 0 && n.tracker.live[i] > 0 ==> n.tracker.freed < i)
+}
+impl RwLock<()> {
+    #[verifier::external_body]
+    pub fn read(&self, Tracked(w): Tracked<&mut World>) -> (r: LockResult<GcReadGuard>)
+        requires !old(w).tracker.rlock && !old(w).tracker.wlock,
+        ensures exists|m: World| #[trigger] gc_lock_interference(*old(w), m) && *final(w) == (World { tracker: TrackerG { rlock: true, ..m.tracker }, ..m }),
+    { unimplemented!() }
+    #[verifier::external_body]
+    pub fn write(&self, Tracked(w): Tracked<&mut World>) -> (r: LockResult<GcWriteGuard>)
+        requires !old(w).tracker.rlock && !old(w).tracker.wlock,
+        ensures exists|m: World| #[trigger] gc_lock_interference(*old(w), m) && *final(w) == (World { tracker: TrackerG { wlock: true, ..m.tracker }, ..m }),
+    { unimplemented!() }
+}
+#[derive(Clone, Copy, PartialEq, Eq)]
+pub enum AtomicRole { FreedCount, LowestFreed }
+pub struct AtomicU64 { pub role: Ghost<AtomicRole> }
+impl AtomicU64 {
+    #[verifier::external_body]
+    pub fn load(&self, o: atomic_shim::Ordering, Tracked(w): Tracked<&mut World>) -> (r: u64)
+        ensures *final(w) == *old(w), r == (if self.role@ == AtomicRole::LowestFreed { old(w).tracker.freed } else { old(w).tracker.freed_count }),
+    { unimplemented!() }
+    // the GC watermark must never move while a shared holder of the gc lock could be registering a view
+    #[verifier::external_body]
+    pub fn store(&self, v: u64, o: atomic_shim::Ordering, Tracked(w): Tracked<&mut World>)
+        requires self.role@ == AtomicRole::LowestFreed ==> old(w).tracker.wlock && v >= old(w).tracker.freed, // [C05:watermark-under-exclusive-lock-and-monotone]
+        ensures self.role@ == AtomicRole::LowestFreed ==> *final(w) == (World { tracker: TrackerG { freed: v, ..old(w).tracker }, ..*old(w) }),
+                self.role@ == AtomicRole::FreedCount ==> *final(w) == (World { tracker: TrackerG { freed_count: v, ..old(w).tracker }, ..*old(w) }),
+    { unimplemented!() }
+    #[verifier::external_body]
+    pub fn fetch_max(&self, v: u64, o: atomic_shim::Ordering, Tracked(w): Tracked<&mut World>) -> (r: u64)
+        requires self.role@ == AtomicRole::LowestFreed ==> old(w).tracker.wlock, // [C05:watermark-under-exclusive-lock-and-monotone]
+        ensures self.role@ == AtomicRole::LowestFreed ==> r == old(w).tracker.freed && *final(w) == (World { tracker: TrackerG { freed: if v > old(w).tracker.freed { v } else { old(w).tracker.freed }, ..old(w).tracker }, ..*old(w) }),
+                self.role@ == AtomicRole::FreedCount ==> r == old(w).tracker.freed_count && *final(w) == (World { tracker: TrackerG { freed_count: if v > old(w).tracker.freed_count { v } else { old(w).tracker.freed_count }, ..old(w).tracker }, ..*old(w) }),
+    { unimplemented!() }
+    // wrapping add (std): returns the previous value
+    #[verifier::external_body]
+    pub fn fetch_add(&self, v: u64, o: atomic_shim::Ordering, Tracked(w): Tracked<&mut World>) -> (r: u64)
+        requires self.role@ == AtomicRole::FreedCount,
+        ensures r == old(w).tracker.freed_count, r < u64::MAX,   // ASSUMED: fewer than 2^64 snapshot closes
+            *final(w) == (World { tracker: TrackerG { freed_count: (old(w).tracker.freed_count + v) as u64, ..old(w).tracker }, ..*old(w) }),
+    { unimplemented!() }
+}
+impl ShimDrop for GcReadGuard {
+    open spec fn drop_pre(w: World) -> bool { w.tracker.rlock }
+    open spec fn drop_post(o: World, n: World) -> bool { n == (World { tracker: TrackerG { rlock: false, ..o.tracker }, ..o }) }
+}
+impl ShimDrop for GcWriteGuard {
+    open spec fn drop_pre(w: World) -> bool { w.tracker.wlock }
+    open spec fn drop_post(o: World, n: World) -> bool { n == (World { tracker: TrackerG { wlock: false, ..o.tracker }, ..o }) }
+}
+// ghost-only update of the registration truth `tracker.live` (no executable state is touched)
+#[verifier::external_body]
+pub proof fn ghost_set_live(tracked w: &mut World, l: Map<u64, nat>)
+    ensures *final(w) == (World { tracker: TrackerG { live: l, ..old(w).tracker }, ..*old(w) }),
+{ unimplemented!() }
